@@ -39,3 +39,36 @@ pub fn parse_rust(code: &str) -> Vec<LogRefEntry>
 
     parser::code_parser::find_references(CodeLanguage::Rust, code, &config)
 }
+
+/// Verification hooks: expose the real reference finder with a caller-supplied configuration.
+/// Compiled only with the `verif` cargo feature; adds no behaviour to the `breadlog` binary.
+#[cfg(feature = "verif")]
+pub mod verif
+{
+    pub use crate::config::Config;
+    pub use crate::parser::LogRefEntry;
+    pub use crate::parser::LogRefKind;
+
+    /// Parse a Breadlog YAML configuration (no lock file is consulted).
+    pub fn config(yaml: &str) -> Result<Config, String>
+    {
+        crate::config::Context::new(yaml.to_string(), "/nonexistent-breadlog-verif-dir", true)
+            .map(|ctx| ctx.config)
+    }
+
+    /// The same entry point the binary uses for every source file.
+    pub fn find(code: &str, config: &Config) -> Vec<LogRefEntry>
+    {
+        crate::parser::code_parser::find_references(
+            crate::parser::code_parser::CodeLanguage::Rust,
+            code,
+            config,
+        )
+    }
+
+    /// Reference extraction from a message literal.
+    pub fn extract_reference(log_literal: &str) -> Option<u32>
+    {
+        LogRefEntry::extract_reference(log_literal)
+    }
+}
